@@ -144,6 +144,9 @@ func judgeOptimal(r *core.Run, knownIDs map[string]string) func(c alnCase, res a
 			opt = ref.GotohLocal(a, b, rm)
 		}
 		if res.score == opt {
+			if f := stepsCarryScore(c, res, rm); f != "" {
+				return core.Failf("%s", trunc(f, 500))
+			}
 			return core.Outcome{}
 		}
 		out := core.Failf("%s(%q, %q, %s) returned score %v, the optimum is %v", c.Fn, trunc(string(a), 30), trunc(string(b), 30), c.Matrix, res.score, opt)
